@@ -512,22 +512,15 @@ func c07Notifiers(w *World, r *Report, fns []*ssa.Function) {
 			return ok
 		})
 		for _, c := range callsIn(fn) {
-			if !region[c] {
-				continue
-			}
 			cc := c.Common()
 			if cc.IsInvoke() || cc.StaticCallee() != nil {
 				continue
 			}
-			for _, root := range provenance(cc.Value, provOpts{}) {
-				if u, ok := root.(*ssa.UnOp); ok {
-					if ia, ok := u.X.(*ssa.IndexAddr); ok {
-						for _, r2 := range provenance(ia.X, provOpts{}) {
-							if fa := asFieldAddr(r2); fa != nil {
-								invoked[fieldVarOf(fa)] = w.Pos(c.Pos())
-							}
-						}
-					}
+			// the list whose element is called: a field, or a slice parameter that callers fill with a field's list
+			// (`q.queueNotifiers = fireAll(q.queueNotifiers)`, called with the mutex held)
+			for _, fld := range calledListFields(w, fns, fn, c) {
+				if region[c] || fld.underLockAtCaller {
+					invoked[fld.f] = w.Pos(c.Pos())
 				}
 			}
 		}
@@ -1820,5 +1813,52 @@ func pkgFuncs(w *World, suffixes ...string) []*ssa.Function {
 		}
 		return out[i].String() < out[j].String()
 	})
+	return out
+}
+
+type calledList struct {
+	f                 *types.Var
+	underLockAtCaller bool
+}
+
+// calledListFields: c is a dynamic call `list[i]()` in fn. Which struct fields can `list` be? Directly a field
+// load, or a slice parameter of fn that some caller (among fns) fills from a field — then also whether that call
+// site lies in a lock region of the caller.
+func calledListFields(w *World, fns []*ssa.Function, fn *ssa.Function, c ssa.CallInstruction) []calledList {
+	var out []calledList
+	for _, root := range provenance(c.Common().Value, provOpts{}) {
+		u, ok := root.(*ssa.UnOp)
+		if !ok {
+			continue
+		}
+		ia, ok := u.X.(*ssa.IndexAddr)
+		if !ok {
+			continue
+		}
+		for _, r2 := range provenance(ia.X, provOpts{}) {
+			if fa := asFieldAddr(r2); fa != nil {
+				out = append(out, calledList{f: fieldVarOf(fa)})
+			}
+			if p, ok := r2.(*ssa.Parameter); ok && p.Parent() == fn {
+				idx := paramIndex(fn, p)
+				for _, g := range fns {
+					var region map[ssa.Instruction]bool
+					for _, c2 := range callsIn(g) {
+						if c2.Common().StaticCallee() != fn || idx < 0 || idx >= len(c2.Common().Args) {
+							continue
+						}
+						if region == nil {
+							region, _ = lockRegion(g, func(v ssa.Value) bool { _, ok := v.(*ssa.FieldAddr); return ok })
+						}
+						for _, r3 := range provenance(c2.Common().Args[idx], provOpts{}) {
+							if fa := asFieldAddr(r3); fa != nil {
+								out = append(out, calledList{f: fieldVarOf(fa), underLockAtCaller: region[c2.(ssa.Instruction)]})
+							}
+						}
+					}
+				}
+			}
+		}
+	}
 	return out
 }
